@@ -51,6 +51,17 @@ def units(tier, seed):
                 names = dict(shape="%dx%d" % (m, n), A=aname, bounds=bn, K=kn, baseline=sn, weights="vector")
                 out.append(dict(model="poisson", names=names, tier=tier,
                                 spec=B.spec_of(A, bm[1], bm[2], dict(AL.K_menu(m))[kn], dict(AL.baseline_menu(m))[sn], AL.w_menu(m)[1][1])))
+    # a per-receptor baseline with an exact zero entry (a receptor without dark activity), both models
+    for (m, n) in [(2, 2), (2, 3), (3, 3), (3, 2)]:
+        A = AL.A_palette(m, n, seed=seed, seeded=False)[0][1]
+        bz = np.array([0.375, 0.0, 0.125])[:m]
+        for model in ("poisson", "excitation"):
+            if model == "excitation" and (m, n) in ((3, 2),):
+                continue
+            for bn, kn in (("ub-finite", "default"), ("lb-mixed", "vector")):
+                bm = {b[0]: b for b in AL.bounds_menu(n)}[bn]
+                names = dict(shape="%dx%d" % (m, n), A="asc", bounds=bn, K=kn, baseline="vector-zero-entry", weights="default")
+                out.append(dict(model=model, names=names, tier=tier, spec=B.spec_of(A, bm[1], bm[2], dict(AL.K_menu(m))[kn], bz)))
     # excitation saturates (e = q / (1 + q)): systems with captures of order one and a baseline of the same size are the sensitive ones
     for (m, n) in [(2, 2), (3, 2), (2, 3)]:
         A = AL.A_palette(m, n, seed=seed, seeded=False)[0][1] / 8.0
